@@ -6,6 +6,7 @@ import c02
 
 CONFIGS = ['prod']
 EXPLANATION = (
+    'N8: selections are owned by the actor - no field of NodeSelectorHandle is a collection of node addresses or a (shared) cell holding one. '
     'N7: the membership record is a plain carrier — ClusterMember::new stores id, address and data centre exactly as given (the selector filters the local node by comparing addresses, the consumers key their peers by id). '
     'SEM (abstract interpretation of the MIR by the checker\'s own interpreter, no code of the repository runs): DCAwareSelector::select_nodes, with select_n_nodes and '
     'NodeCycler, is interpreted on a bounded family of data-centre layouts (quick: 21 layouts up to 4 data centres, every rotating-cursor position = whatever selections were '
@@ -394,6 +395,7 @@ def check(ctx):
     facts = ctx.facts('prod')
     import carrier_abs
     carrier_abs.check_member_constructor(ctx, facts, 'C15.N7')
+    check_N8(ctx, facts)
     check_actor(ctx, facts)
     # SEM: select_nodes (with select_n_nodes and NodeCycler) interpreted on a family of concrete layouts, for every cursor position,
     # every level and every random draw (selector_abs); subsumes N3-N6, which are evaluated only when a construct is not modelled
@@ -402,3 +404,36 @@ def check(ctx):
         check_N3(ctx, facts)
         check_N6(ctx, facts)
         check_N4(ctx, facts)
+
+
+def check_N8(ctx, facts, rule='C15.N8'):
+    """N8: selections are owned by the actor.  The actor processes membership updates and requests in one order, so a selection it hands out
+    (or keeps) is never older than the last update it has processed.  A copy of a selection kept on the HANDLE side — in a cell shared by the
+    handle's clones — is written by requests that were in flight while an update went through: the handle's fields are channel endpoints and
+    plain values, none of them a collection of node addresses or a shared cell holding one.  (Round 7, C15g: the 2 s selection cache moved
+    into the handle; a request answered from the old layout stores its answer after `set_nodes` cleared the cache.)"""
+    hs = [a for n, a in facts.adts.items() if n.startswith('datacake_node::') and n.endswith('::NodeSelectorHandle') and a['kind'] == 'struct']
+    if len(hs) != 1:
+        return
+    h = hs[0]
+
+    def holds_selection(ty, depth=0, seen=()):
+        if ty.startswith(('flume::Sender<', 'flume::Receiver<', 'tokio::sync::mpsc::', 'tokio::sync::oneshot::', 'crossbeam_channel::')):
+            return None
+        if 'SocketAddr' in ty and any(c in ty for c in ('SmallVec<', 'Vec<', 'HashMap<', 'BTreeMap<', 'HashSet<', 'BTreeSet<', 'VecDeque<', '[core::net', '[std::net')):
+            return 'holds a collection of node addresses'
+        head = ty_head(ty)
+        a = facts.adts.get(head)
+        if a and depth < 3 and head not in seen and a['def'].startswith('datacake_node'):
+            for v in a['variants']:
+                for f in v['fields']:
+                    r = holds_selection(f['ty'], depth + 1, seen + (head,))
+                    if r:
+                        return '%s.%s %s' % (last_seg(head), f['name'], r)
+        return None
+    for f in h['variants'][0]['fields']:
+        r = holds_selection(f['ty'])
+        ctx.ob(rule, 'handle.field|' + f['name'], r is None, '%s:%s' % (h['span']['f'], h['span']['l']),
+               'field %s of the selector handle holds no selection' % f['name'] if r is None else
+               'field %s: %s %s — a selection kept outside the actor is written by requests that were in flight while a membership update went through: '
+               'nodes that left keep being selected after `set_nodes` returned' % (f['name'], f['ty'][:120], r))
